@@ -34,9 +34,16 @@ def num_num_arm(fn):
         if isinstance(n, ast.Dict):
             for k, v in zip(n.keys, n.values):
                 if k is not None and ast.unparse(k) == \
-                        "(NUMBER_TYPE, NUMBER_TYPE)" and isinstance(
-                        v, ast.Lambda):
-                    return v.body, k.lineno
+                        "(NUMBER_TYPE, NUMBER_TYPE)":
+                    if isinstance(v, ast.Lambda):
+                        return v.body, k.lineno
+                    if isinstance(v, ast.Name):
+                        # a nested helper: fold its returns into one
+                        # conditional expression
+                        for d in ast.walk(fn):
+                            if isinstance(d, ast.FunctionDef) \
+                                    and d.name == v.id:
+                                return helper_as_expr(d), d.lineno
     # if/elif form: `if ts == (NUMBER_TYPE, NUMBER_TYPE): return E`
     for n in ast.walk(fn):
         if isinstance(n, ast.If) and "(NUMBER_TYPE, NUMBER_TYPE)" in \
@@ -45,6 +52,54 @@ def num_num_arm(fn):
                 if isinstance(b, ast.Return) and b.value is not None:
                     return b.value, b.lineno
     return None, None
+
+
+def helper_as_expr(d):
+    """`def f(): try: return A except ZeroDivisionError: return B` and plain
+    `if c: return A` chains -> an expression tree over the returns.  A
+    try/except is NOT a zero guard (sympy returns zoo instead of raising), so
+    only explicit tests survive as IfExp."""
+    rets = []
+
+    def walk(stmts):
+        for st in stmts:
+            if isinstance(st, ast.Return) and st.value is not None:
+                rets.append(st.value)
+            elif isinstance(st, ast.If):
+                before = len(rets)
+                walk(st.body)
+                body_r = rets[before:]
+                del rets[before:]
+                walk(st.orelse)
+                else_r = rets[before:]
+                del rets[before:]
+                if len(body_r) == 1 and len(else_r) <= 1:
+                    if else_r:
+                        rets.append(ast.IfExp(test=st.test, body=body_r[0],
+                                              orelse=else_r[0]))
+                    else:
+                        rets.append(("pending", st.test, body_r[0]))
+                else:
+                    rets.extend(body_r + else_r)
+            elif isinstance(st, ast.Try):
+                walk(st.body)
+                for h in st.handlers:
+                    walk(h.body)
+    walk(d.body)
+    # fold `if c: return A` followed by `return B`
+    out = None
+    for r in reversed(rets):
+        if isinstance(r, tuple):
+            out = ast.IfExp(test=r[1], body=r[2],
+                            orelse=out if out is not None
+                            else ast.Constant(value=None))
+        elif out is None:
+            out = r
+        else:
+            # several unconditional returns (try/except): all must be exact;
+            # join them with a neutral binary operator for the exactness walk
+            out = ast.BinOp(left=r, op=ast.Add(), right=out)
+    return ast.fix_missing_locations(out) if out is not None else None
 
 
 def lifted(e):
